@@ -245,3 +245,104 @@ def _normalise(txt):
     t = re.sub(r'\bncols\b', 'n', t)
     t = re.sub(r'\bc\b', 'n', t)
     return t
+
+
+# ====================================================================== A2i: a recycled header carries nothing over (C14)
+
+def rule_A2i(ctx, prog, label, rule='A2i', ctors=CONSTRUCTORS):
+    """mzd_t_malloc hands out header slots that previous matrices used and does not clear them: in each constructor every
+    header field is plainly assigned on every path before it is read (a compound assignment reads) and before the header
+    is returned or handed to another function."""
+    from .cfg import cfg_of, forward
+    from .ast import callee_name
+    rr = RuleResult(rule, 'a header slot from mzd_t_malloc keeps nothing of its previous user: every field is assigned before it is read and before the constructor returns')
+    ALL = frozenset(HEADER_FIELDS)
+    for c in ctors:
+        f = prog.funcs.get(c)
+        if f is None or f.body is None:
+            raise AnalysisBroken('%s: constructor %s no longer exists' % (rule, c))
+        hv = None
+        for n in f.body.walk():
+            init = None
+            if n.kind == 'VarDecl' and n.kids:
+                init, vid = n.kids[-1], n.id
+            elif n.kind == 'BinaryOperator' and n.op == '=' and strip(n.kids[0], casts=True).kind == 'DeclRefExpr':
+                init, vid = n.kids[1], strip(n.kids[0], casts=True).refid
+            if init is not None:
+                i0 = strip(init, casts=True)
+                if i0 is not None and i0.kind == 'CallExpr' and callee_name(i0) == 'mzd_t_malloc':
+                    hv = vid
+        if hv is None:
+            raise AnalysisBroken('%s: %s no longer takes its header from mzd_t_malloc' % (rule, c))
+        g = cfg_of(f)
+
+        def is_hv(e):
+            e = strip(e, casts=True)
+            return e is not None and e.kind == 'DeclRefExpr' and e.refid == hv
+
+        def events(ast):
+            """[(kind, field, node)] in evaluation order: reads before the assignment they feed"""
+            ev = []
+
+            def go(n, lhs_of_plain=False):
+                if n is None:
+                    return
+                if n.kind == 'BinaryOperator' and n.op == '=':
+                    l = strip(n.kids[0], casts=True)
+                    go(n.kids[1])
+                    if l.kind == 'MemberExpr' and is_hv(l.kids[0]) and l.name in ALL:
+                        ev.append(('def', l.name, n))
+                    else:
+                        go(n.kids[0])
+                    return
+                if n.kind == 'MemberExpr' and is_hv(n.kids[0]) and n.name in ALL:
+                    ev.append(('use', n.name, n))
+                    return
+                if n.kind == 'CallExpr':
+                    for a in n.kids[1:]:
+                        if is_hv(a):
+                            ev.append(('escape', None, n))
+                if n.kind == 'ReturnStmt' and n.kids and is_hv(n.kids[0]):
+                    ev.append(('escape', None, n))
+                for k in n.kids:
+                    go(k)
+            go(ast)
+            return ev
+
+        IN = forward(g, ALL, lambda cn, st: _a2i_quiet(cn, st, hv, ALL, events, is_hv), lambda a, b: a & b)
+        for cn in g.nodes:
+            if cn.ast is None or cn.id not in IN:
+                continue
+            st = IN[cn.id]
+            for n in cn.ast.walk():
+                if (n.kind == 'VarDecl' and n.id == hv) or (n.kind == 'BinaryOperator' and n.op == '=' and is_hv(n.kids[0])):
+                    st = frozenset()
+            for (k, fld, n) in events(cn.ast):
+                rr.instances += 1
+                if k == 'def':
+                    st = st | {fld}
+                    rr.ob(True, dict(constructor=c, field=fld, assigned_by=pp(n)[:70]))
+                elif k == 'use':
+                    rr.ob(fld in st, None, Finding(rule, '%s|%s|%s|read' % (rule, c, fld), n.loc, c,
+                          'field `%s` of the new header is read in `%s` before it is assigned: it still holds what the previous user of the '
+                          'slot left there (mzd_t_malloc does not clear recycled headers)' % (fld, pp(cn.ast)[:70]), {}, label))
+                else:
+                    miss = sorted(ALL - st)
+                    rr.ob(not miss, dict(constructor=c, leaves_by=pp(cn.ast)[:50], all_fields_assigned=True),
+                          Finding(rule, '%s|%s|%s|unassigned' % (rule, c, ','.join(miss)), n.loc, c,
+                                  'the new header leaves %s through `%s` with %s not assigned on some path: it keeps the previous user\'s '
+                                  'value' % (c, pp(cn.ast)[:50], ', '.join('`%s`' % x for x in miss)), {}, label))
+    rr.require_floor(2 * len(HEADER_FIELDS), 'header field events')
+    return rr
+
+
+def _a2i_quiet(cn, st, hv, ALL, events, is_hv):
+    if cn.ast is None:
+        return st
+    for n in cn.ast.walk():
+        if (n.kind == 'VarDecl' and n.id == hv) or (n.kind == 'BinaryOperator' and n.op == '=' and is_hv(n.kids[0])):
+            st = frozenset()
+    for (k, fld, n) in events(cn.ast):
+        if k == 'def':
+            st = st | {fld}
+    return st
